@@ -41,6 +41,9 @@ type Plan struct {
 	StdoutGreaterThan int    `json:"StdoutGreaterThan,omitempty"`
 	StderrMatch       string `json:"StderrMatch,omitempty"`
 	StderrRegex       string `json:"StderrRegex,omitempty"`
+	StderrType        string `json:"StderrType,omitempty"`
+	StderrIsArray     bool   `json:"StderrIsArray,omitempty"`
+	StderrIsMap       bool   `json:"StderrIsMap,omitempty"`
 }
 
 type Case struct {
@@ -48,6 +51,7 @@ type Case struct {
 	OutType string `json:"out_type"` // str | json
 	Stdout  string `json:"stdout"`
 	Stderr  string `json:"stderr"`
+	ErrType string `json:"err_type,omitempty"` // "" (not declared) | json: the data type the function declares for its stderr
 	Exit    int    `json:"exit"`
 	Plan    Plan   `json:"plan"`
 }
@@ -92,6 +96,9 @@ func TestMain(m *testing.M) {
 		so, _ := p.Parameters.String(1)
 		se, _ := p.Parameters.String(2)
 		n, _ := p.Parameters.Int(3)
+		if et, err := p.Parameters.String(4); err == nil && et != "" {
+			p.Stderr.SetDataType(et)
+		}
 		p.Stdout.SetDataType(typ)
 		if b := dec(so); len(b) > 0 {
 			p.Stdout.Write(b)
@@ -129,7 +136,7 @@ func TestMain(m *testing.M) {
 }
 
 func (c Case) block() string {
-	return fmt.Sprintf("c31emit %s %s %s %d", c.OutType, enc(c.Stdout), enc(c.Stderr), c.Exit)
+	return fmt.Sprintf("c31emit %s %s %s %d %s", c.OutType, enc(c.Stdout), enc(c.Stderr), c.Exit, c.ErrType)
 }
 
 func (c Case) planJSON() string {
@@ -208,6 +215,29 @@ func evaluate(c Case) (vs []verdict, ok bool, why string) {
 		}
 		vs = append(vs, verdict{"StderrRegex", rx.MatchString(c.Stderr)})
 	}
+	if p.StderrType != "" {
+		if c.ErrType == "" {
+			return nil, false, "StderrType on a stream without a declared type"
+		}
+		vs = append(vs, verdict{"StderrType", p.StderrType == c.ErrType})
+	}
+	if p.StderrIsArray || p.StderrIsMap {
+		if c.ErrType != "json" {
+			return nil, false, "structure assertion on a non-json stream"
+		}
+		var v any
+		if err := json.Unmarshal([]byte(c.Stderr), &v); err != nil {
+			return nil, false, "stderr is not valid json"
+		}
+		_, isA := v.([]any)
+		_, isM := v.(map[string]any)
+		if p.StderrIsArray {
+			vs = append(vs, verdict{"StderrIsArray", isA})
+		}
+		if p.StderrIsMap {
+			vs = append(vs, verdict{"StderrIsMap", isM})
+		}
+	}
 	if p.StderrMatch == "" && p.StderrRegex == "" && c.Stderr != "" {
 		// murex then requires an empty stderr; neither statement nor docs say so
 		return nil, false, "stderr output without a stderr assertion"
@@ -242,6 +272,7 @@ func check(c Case) *core.Violation {
 			ExitNum: c.Plan.ExitNum, StdoutMatch: c.Plan.StdoutMatch, StdoutRegex: c.Plan.StdoutRegex,
 			StdoutType: c.Plan.StdoutType, StdoutIsArray: c.Plan.StdoutIsArray, StdoutIsMap: c.Plan.StdoutIsMap,
 			StdoutGreaterThan: c.Plan.StdoutGreaterThan, StderrMatch: c.Plan.StderrMatch, StderrRegex: c.Plan.StderrRegex,
+			StderrType: c.Plan.StderrType, StderrIsArray: c.Plan.StderrIsArray, StderrIsMap: c.Plan.StderrIsMap,
 		}}
 		jobs.Store(id, job)
 		defer jobs.Delete(id)
@@ -415,8 +446,22 @@ func gen_(t *rapid.T) Case {
 	} else {
 		c.Stdout = genText(t, rich, 0, "stdout")
 	}
-	if rapid.IntRange(0, 2).Draw(t, "has-stderr") == 2 {
+	var ev any
+	switch rapid.IntRange(0, 5).Draw(t, "has-stderr") {
+	case 4:
 		c.Stderr = genText(t, rich, 1, "stderr")
+	case 5:
+		// structured stderr with a declared data type
+		c.ErrType = "json"
+		str := rapid.Custom(func(t *rapid.T) string { return genText(t, rich, 0, "ejstr") })
+		key := rapid.StringMatching(`[a-z]{1,3}`)
+		if rapid.Bool().Draw(t, "stderr-array") {
+			ev = rapid.SliceOfN(gen.JSONValue(gen.JSONOpts{MaxDepth: 1, Str: str, Key: key, NoFloat: true}), 0, 4).Draw(t, "earr")
+		} else {
+			ev = rapid.MapOfN(key, gen.JSONValue(gen.JSONOpts{MaxDepth: 1, Str: str, Key: key, NoFloat: true}), 0, 4).Draw(t, "emap")
+		}
+		b, _ := json.Marshal(ev)
+		c.Stderr = string(b)
 	}
 
 	// which assertions, and which of them are falsified
@@ -425,6 +470,9 @@ func gen_(t *rapid.T) Case {
 		kinds = append(kinds, "StdoutIsArray", "StdoutIsMap", "StdoutGreaterThan")
 	}
 	kinds = append(kinds, "StderrMatch", "StderrRegex")
+	if c.ErrType == "json" {
+		kinds = append(kinds, "StderrIsArray", "StderrIsMap", "StderrType")
+	}
 	chosen := map[string]bool{"ExitNum": true}
 	for _, k := range kinds {
 		if rapid.IntRange(0, 2).Draw(t, "use-"+k) != 0 {
@@ -499,6 +547,22 @@ func gen_(t *rapid.T) Case {
 				}
 			} else {
 				c.Plan.StdoutGreaterThan = rapid.IntRange(1, l-1).Draw(t, "gt-under")
+			}
+		}
+	}
+	if c.ErrType == "json" {
+		_, isA := ev.([]any)
+		_, isM := ev.(map[string]any)
+		if chosen["StderrIsArray"] && (isA != falsify["StderrIsArray"]) {
+			c.Plan.StderrIsArray = true
+		}
+		if chosen["StderrIsMap"] && (isM != falsify["StderrIsMap"]) {
+			c.Plan.StderrIsMap = true
+		}
+		if chosen["StderrType"] {
+			c.Plan.StderrType = "json"
+			if falsify["StderrType"] {
+				c.Plan.StderrType = rapid.SampledFrom([]string{"str", "yaml", "int"}).Draw(t, "wrong-errtype")
 			}
 		}
 	}
